@@ -381,3 +381,7 @@ def run(ctx):
     ctx.guarded(r, XS86.check_lane_semantics, "interval")
     r = ctx.rule("R3j", "aarch64 interval abs / square / recip / sqrt give the interpreter's interval in every sign class of the argument; the undecided paths of min / max / and / or hold the bound-wise result", 8)
     ctx.guarded(r, XS.check_interval_piecewise)
+    from .. import x86pw as PW86
+
+    r = ctx.rule("R3k", "x86_64 interval abs / square / recip / sqrt / min / max / and / or / compare: on every order type of the bounds exactly one path is selected and its output encloses the operation's range over the box (or is the NaN interval)", 9)
+    ctx.guarded(r, PW86.check_piecewise, "interval", choices=False)
